@@ -175,7 +175,11 @@ def prepare_evo_aspirate_dispense_parameters(
         raise ValueError(f"Invalid volume: {volume}")
 
     # apply rounding and corrections for the right string formatting
-    volume_list: List[float] = np.round(volume, decimals=2).tolist()
+    volume_arr = np.asarray(volume)
+    if volume_arr.dtype.kind == "f":
+        # half/single precision elements would be rounded (and overflow) in their own type
+        volume_arr = volume_arr.astype(float)
+    volume_list: List[float] = np.round(volume_arr, decimals=2).tolist()
 
     if liquid_class is None:
         raise ValueError(f"Missing required parameter: liquid_class")
